@@ -34,6 +34,12 @@ CHECKS = {
         design_ref="DESIGN.md §4 C09",
         note="Trusted: z3 (incl. its sequence/regex theory for the host oracle), CPython, forksym + ReShim. String lengths, table sizes (2 entries), "
              "nesting depth and the host pattern tables are enumerated; all characters are solver variables (paths full Unicode, Host Latin-1)."),
+    "C10": dict(
+        technique="fork-on-branch symbolic execution of the real ASGI Request accessors on a virtual-time asyncio loop (message count, empty messages, disconnect position, receive delays and task start offsets decided by z3) and of the WSGI accessors with a symbolic chunk count",
+        design_ref="DESIGN.md §4 C10",
+        note="Trusted: z3, CPython/asyncio (real scheduler on a virtual clock), forksym. Body bytes are fixed order-revealing markers (the "
+             "accessors never inspect them); <=3 messages, delays 0..30 ticks, 2 (quick) / 3 (thorough) concurrent awaiters; access programs "
+             "are an enumerated list over body/stream/json/form/close."),
     "C11": dict(
         technique="fork-on-branch symbolic execution of the real WebSocket wrapper: one inductive step from every (client,application) state pair plus bounded histories, state/call/event choices decided by z3, payloads symbolic",
         design_ref="DESIGN.md §4 C11",
